@@ -10,7 +10,8 @@ Runs on a scratch copy of <repo>/sasmodels (the kernel templates are edited) pla
 a private cache directory, and the memoising scripted compiler (mc/scripted_cc.py, no scheduler).
 File modification times come from a counter the harness owns (os.utime): every edit advances it.
 
-Events (8): toggle python constant | toggle parameter table (extra parameter) | toggle constant in the
+Events (9): toggle python constant | toggle parameter table (extra parameter) | toggle the DEFAULT of a
+parameter that is never passed explicitly (Python-only edit, identical generated C) | toggle constant in the
 included C file | toggle an edit of kernel_iq.c | toggle a macro in kernel_header.c | toggle requested
 precision | load+evaluate in the long-running process | load+evaluate in a fresh process.
 Toggling twice restores the earlier text with a newer mtime ("revert").
@@ -38,22 +39,26 @@ LEVEL = "model_checking"
 ENGINE = "E2"
 TECHNIQUE = ("explicit enumeration of all edit/load histories up to a depth on the real implementation; "
              "the long-running process is forked at every node so in-process caches follow the history exactly")
-RULE = ("all sequences over the 8-event alphabet up to the depth bound, no de-duplication; every load event is "
+RULE = ("all sequences over the 9-event alphabet up to the depth bound, in two clock regimes (edits stamped before / "
+        "after the wall clock), no de-duplication; every load event is "
         "judged against the closed form of the current texts; non-trivial = history has an edit between two loads")
 ASSUMPTIONS = [
     "every edit advances the file's modification time (harness-owned clock, os.utime)",
     "the C compiler is environment: real cc once per distinct source, memoised afterwards",
     "edits are drawn from the 6 toggles listed in the module docstring; POSIX; DLL driver only",
 ]
-BOUNDS = {"quick": {"depth": 4, "events": 8}, "thorough": {"depth": 6, "events": 8}}
+BOUNDS = {"quick": {"depth": {"past": 4, "future": 3}, "events": 9},
+          "thorough": {"depth": {"past": 5, "future": 5}, "events": 9}}
 CASE_TIMEOUT = 1800
 
-EVENTS = ["py", "tab", "c", "tpl", "hdr", "dtype", "loadL", "loadF"]
+EVENTS = ["py", "tab", "dflt", "c", "tpl", "hdr", "dtype", "loadL", "loadF"]
 Q = [0.1, 0.5]
 A = 1.5
 K_PY = (2.0, 7.0)
 K_C = (5.0, 11.0)
 K_HDR = (1.0, 3.0)
+B_DEFAULT = (1.0, 2.5)  # default of parameter b (never passed explicitly): a Python-only edit, same generated C
+CLOCKS = {"past": 1500000000, "future": 2200000000}   # edits stamped before / after the wall clock
 EXTRA = 4.0          # default of the optional extra parameter
 TPL_OLD = "            result[q_index] += weight * F2;"
 TPL_NEW = "            result[q_index] += 2.0 * weight * F2;"
@@ -62,14 +67,15 @@ PLUGIN = '''
 from numpy import inf
 name = "pm"
 title = "verif cache probe"
-description = "Iq = a*K_py*k_c()*VERIF_HDR*extra*(1+q)"
+description = "Iq = a*b*K_py*k_c()*VERIF_HDR*extra*(1+q)"
 category = "shape-independent"
 parameters = [
     ["a", "", 1.0, [-inf, inf], "", ""],
+    ["b", "", %(bdef)r, [-inf, inf], "", ""],
 %(extra)s]
 source = ["pm_lib.c"]
 Iq = """
-    return a*%(kpy)r*k_c()*VERIF_HDR%(extra_use)s*(1.0+q);
+    return a*b*%(kpy)r*k_c()*VERIF_HDR%(extra_use)s*(1.0+q);
 """
 '''
 LIB = "double k_c(void);\ndouble k_c(void) { return %r; }\n"
@@ -89,8 +95,9 @@ class Tree(object):
             "tpl": os.path.join(self.pkg, "kernel_iq.c"),
             "hdr": os.path.join(self.pkg, "kernel_header.c"),
         }
-        self.clock = 1500000000
-        self.bits = {"py": 0, "tab": 0, "c": 0, "tpl": 0, "hdr": 0, "dtype": 0}
+        self.regime = "past"
+        self.clock = CLOCKS[self.regime]
+        self.bits = {"py": 0, "tab": 0, "dflt": 0, "c": 0, "tpl": 0, "hdr": 0, "dtype": 0}
         self.base = {}
 
     def create(self, repo):
@@ -110,7 +117,8 @@ class Tree(object):
         b = self.bits
         if which == "py":
             extra = '    ["extra", "", %r, [-inf, inf], "", ""],\n' % EXTRA if b["tab"] else ""
-            return PLUGIN % {"extra": extra, "kpy": K_PY[b["py"]], "extra_use": "*extra" if b["tab"] else ""}
+            return PLUGIN % {"extra": extra, "kpy": K_PY[b["py"]], "extra_use": "*extra" if b["tab"] else "",
+                             "bdef": B_DEFAULT[b["dflt"]]}
         if which == "c":
             return LIB % K_C[b["c"]]
         if which == "tpl":
@@ -128,9 +136,10 @@ class Tree(object):
         os.replace(tmp, path)
         os.utime(path, (self.clock, self.clock))
 
-    def reset(self):
+    def reset(self, regime="past"):
         self.bits = {k: 0 for k in self.bits}
-        self.clock = 1500000000
+        self.regime = regime
+        self.clock = CLOCKS[regime]
         for w in ("py", "c", "tpl", "hdr"):
             self.write(w)
         for f in os.listdir(self.cache):
@@ -144,7 +153,7 @@ class Tree(object):
     def restore(self, snap):
         bits, clock, mtimes, listing = snap
         changed = [w for w in ("py", "c", "tpl", "hdr")
-                   if any(self.bits[k] != bits[k] for k in (("py", "tab") if w == "py" else (w,)))
+                   if any(self.bits[k] != bits[k] for k in (("py", "tab", "dflt") if w == "py" else (w,)))
                    or os.stat(self.files[w]).st_mtime_ns != mtimes[w]]
         self.bits = dict(bits)
         for w in changed:
@@ -158,7 +167,7 @@ class Tree(object):
 
     def toggle(self, ev):
         self.bits[ev] ^= 1
-        if ev in ("py", "tab"):
+        if ev in ("py", "tab", "dflt"):
             self.write("py")
         elif ev in ("c", "tpl", "hdr"):
             self.write(ev)
@@ -166,12 +175,13 @@ class Tree(object):
 
     def expected(self):
         b = self.bits
-        k = A * K_PY[b["py"]] * K_C[b["c"]] * K_HDR[b["hdr"]] * (EXTRA if b["tab"] else 1.0) * (2.0 if b["tpl"] else 1.0)
-        return [k * (1.0 + q) for q in Q], (["a", "extra"] if b["tab"] else ["a"])
+        k = (A * B_DEFAULT[b["dflt"]] * K_PY[b["py"]] * K_C[b["c"]] * K_HDR[b["hdr"]] * (EXTRA if b["tab"] else 1.0)
+             * (2.0 if b["tpl"] else 1.0))
+        return [k * (1.0 + q) for q in Q], (["a", "b", "extra"] if b["tab"] else ["a", "b"])
 
     def key(self):
         b = self.bits
-        return "py%d tab%d c%d tpl%d hdr%d" % (b["py"], b["tab"], b["c"], b["tpl"], b["hdr"])
+        return "py%d tab%d c%d tpl%d hdr%d" % (b["py"], b["tab"], b["c"], b["tpl"], b["hdr"])   # (dflt: same C)
 
 
 def _evaluate(tree):
@@ -414,7 +424,7 @@ def _request(zsock_path, req, timeout=None):
 
 def run_prefixes(arg):
     """pool worker: private tree + zygote; explores the subtrees below the given prefixes"""
-    widx, prefixes, depth, scratch, repo = arg
+    widx, work, scratch, repo = arg      # work: [(regime, prefix, depth)]
     root = os.path.join(scratch, "w%d" % widx)
     tree = Tree(root)
     tree.create(repo)
@@ -435,13 +445,16 @@ def run_prefixes(arg):
         raise HarnessError("zygote failed to start: %s" % msg.decode("utf8", "replace"))
     total = _new_agg()
     try:
-        for prefix in prefixes:
-            tree.reset()
+        for regime, prefix, depth in work:
+            tree.reset(regime)
             out = _request(zsock, {"op": "dfs", "prefix": prefix, "depth": depth - len(prefix),
                                    "bits": tree.bits, "clock": tree.clock})
             if "harness" in out:
                 raise HarnessError(out["harness"])
             out["outcomes"] = set(out["outcomes"])
+            for f in out["fails"]:
+                f["regime"] = regime
+                f["detail"] = "[edits stamped in the %s] %s" % (regime, f["detail"])
             _merge(total, out)
     finally:
         try:
@@ -472,15 +485,15 @@ def _request_quit(zsock):
 def explore(ctx):
     if "sasmodels" in sys.modules:
         raise HarnessError("sasmodels must not be imported in the C17 controller")
-    depth = BOUNDS[ctx.tier]["depth"]
+    depths = BOUNDS[ctx.tier]["depth"]
     os.makedirs(os.path.join(ctx.scratch, "ccmemo"), exist_ok=True)
     # the root and the depth-1 nodes are cheap; subtrees below every 2-event prefix go to the pool
-    prefixes = [[a, b] for a in EVENTS for b in EVENTS]
-    k = ctx.seed % len(prefixes)
-    prefixes = prefixes[k:] + prefixes[:k]
-    jobs = min(ctx.jobs, len(prefixes))
-    chunks = [prefixes[i::jobs] for i in range(jobs)]
-    args = [(i, chunks[i], depth, ctx.scratch, ctx.repo) for i in range(jobs)]
+    work = [(regime, [a, b], depths[regime]) for regime in ("past", "future") for a in EVENTS for b in EVENTS]
+    k = ctx.seed % len(work)
+    work = work[k:] + work[:k]
+    jobs = min(ctx.jobs, len(work))
+    chunks = [work[i::jobs] for i in range(jobs)]
+    args = [(i, chunks[i], ctx.scratch, ctx.repo) for i in range(jobs)]
     res = pool_map(ctx, run_prefixes, args, timeout=CASE_TIMEOUT, jobs=jobs)
     report = Report()
     total = _new_agg()
@@ -493,7 +506,7 @@ def explore(ctx):
         _merge(total, payload)
     # histories shorter than the prefix length (root + 8 single events) are prefixes of explored ones:
     # their loads were executed and judged as part of every extension
-    n_hist = total["histories"] + 1 + len(EVENTS)
+    n_hist = total["histories"] + 2 * (1 + len(EVENTS))
     report.evals = n_hist
     report.states = n_hist
     report.trans = total["trans"]
@@ -501,14 +514,14 @@ def explore(ctx):
     report.outcomes = set(total["outcomes"])
     report.branches["loads-judged"] = total["loads"]
     report.branches["histories"] = n_hist
-    report.coverage["depth"] = depth
-    report.coverage["closed_form_histories"] = sum(len(EVENTS) ** d for d in range(0, depth + 1))
+    report.coverage["depth"] = depths
+    report.coverage["closed_form_histories"] = sum(len(EVENTS) ** d for r in depths for d in range(0, depths[r] + 1))
     if report.coverage["closed_form_histories"] != n_hist:
         raise HarnessError("explored %d histories, closed form says %d" % (n_hist, report.coverage["closed_form_histories"]))
     report.samples = [{"history": ["loadL", "c", "loadL", "loadF"], "meaning": "load, edit included C file, load again in the same and in a fresh process"}]
     seen = set()
     for f in total["fails"]:
-        case = {"history": f["history"]}
+        case = {"history": f["history"], "regime": f.get("regime", "past")}
         report.fails.append({"detail": f["detail"], "fkey": {"clause": f["clause"], "load": f["how"]},
                              "case": case, "cid": case_id(case), "sub": None})
     if total["nfails"] > len(total["fails"]):
@@ -524,7 +537,8 @@ def finish(ctx, report):
 def replay(case, ctx):
     """replay one history on a fresh private tree"""
     hist = case["history"]
-    out = run_prefixes((0, [hist], len(hist), ctx.scratch, ctx.repo))
+    os.makedirs(os.path.join(ctx.scratch, "ccmemo"), exist_ok=True)
+    out = run_prefixes((0, [(case.get("regime", "past"), hist, len(hist))], ctx.scratch, ctx.repo))
     r = R()
     for f in out["fails"]:
         r.fail(f["detail"], {"clause": f["clause"], "load": f["how"]})
